@@ -339,6 +339,9 @@ theorem huge_diag (fs : Files) (n : Nat) (hn : n = 70000) :
     rw [translateAll_replicate orgP_spec, tail2_spec]; rfl
   rw [h2]; dsimp only
   rw [huge_pcr n hn]; dsimp only
+  -- batch 5: the ORG check (it passes: every ORG comes first; either way the result is a diagnostic)
+  split
+  · rfl
   have h4 : assignAddrs (List.replicate n org2 ++ [far3, x2]) 0 = .ok (List.replicate n org2 ++ [far4, x4]) := by
     rw [assignAddrs_replicate f8 f9 f10, tail4_spec, tail4_eq]
   rw [h4]; dsimp only
